@@ -112,8 +112,9 @@ def gen_rule(rng, kind=None, kinds=None):
             r["Protocol"] = rng.choice(NPROTO)
     elif kind in ("mount", "remount", "umount"):
         r.update(qual(rng))
-        r["FsType"] = rng.choice(["", "", "ext4", "tmpfs", "proc"]) if kind != "umount" else ""
-        r["Options"] = subset(rng, MOPTS, 0, 3) if kind != "umount" else []
+        # (umount takes the same conditions as mount; most real umount rules have none)
+        r["FsType"] = rng.choice(["", "", "ext4", "tmpfs", "proc"]) if kind != "umount" or rng.random() < 0.25 else ""
+        r["Options"] = subset(rng, MOPTS, 0, 3) if kind != "umount" or rng.random() < 0.25 else []
         if kind == "mount":
             r["Source"] = rng.choice(["", "/dev/sda1", "tmpfs", "/dev/**", gen_dir(rng)])
             r["MountPoint"] = rng.choice(["", gen_dir(rng), "/mnt/**/"])
@@ -143,7 +144,7 @@ def gen_rule(rng, kind=None, kinds=None):
         peer = rng.random() < 0.5
         r["Access"] = subset(rng, [a for a in UNIX_ACC if not (peer and a in UNIX_LOCAL)], 0, 4)
         r["Type"] = rng.choice(["", "stream", "dgram", "seqpacket"])
-        r["Protocol"] = ""
+        r["Protocol"] = ""      # (protocol=, attr= and opt= are rejected by the reference parser: outside the domain of valid rules)
         r["Address"] = rng.choice(["", "none", "@/tmp/.X11-unix/X0", "@/tmp/.ICE-unix/@{int}"])
         r["Label"] = rng.choice(["", "foo"]) if not peer else ""
         r["Attr"] = ""
@@ -187,7 +188,9 @@ def gen_rule(rng, kind=None, kinds=None):
     elif kind == "all":
         pass
     if rng.random() < 0.1 and kind != "all":
-        r["Comment"] = rng.choice([" a comment", " TODO: check", " why, though?", " for the 7\" panel", " don't ask", " see \"the docs\""])
+        r["Comment"] = rng.choice([" a comment", " TODO: check", " why, though?", " for the 7\" panel", " don't ask", " see \"the docs\"",
+                                   # the comments the tool itself writes on rules built from log records
+                                   " file_inherit", " no new privs", " optional: see the docs", " file_inherit (from the parent)"])
     return r
 
 
@@ -285,6 +288,10 @@ def canon(r):
             s += " addr=" + r["Address"]
         if r["Label"]:
             s += " label=" + r["Label"]
+        if r.get("Attr"):
+            s += " attr=" + r["Attr"]
+        if r.get("Opt"):
+            s += " opt=" + r["Opt"]
         peer = []
         if r["PeerLabel"]:
             peer.append("label=" + r["PeerLabel"])
@@ -356,6 +363,10 @@ def normalise_fields(kind, f):
         if v is None:
             v = ""
         out[k] = v
+    # the trailing comment of a rule is what the library prints after '#': the three tool markers it keeps as flags, then the text
+    if "Comment" in out or any(f.get(x) for x in ("FileInherit", "NoNewPrivs", "Optional")):
+        out["Comment"] = ((" file_inherit" if f.get("FileInherit") else "") + (" no new privs" if f.get("NoNewPrivs") else "")
+                          + (" optional:" if f.get("Optional") else "") + (out.get("Comment") or ""))
     return out
 
 
